@@ -171,13 +171,14 @@ structure DSt where
   pend : List Bool := []       -- bit reservoir
   inp  : List Byte             -- bytes of the file not yet loaded into the reservoir
   endZero : Bool := true       -- `b.end == 0`
+  padBits : Nat := 0           -- `pad_bits`: zero bits shifted in behind the end of the file so far
 deriving Repr
 
 /-- state after `dwvw_read_reset` (open, seek to 0) with the file positioned at the start of `data` -/
 def DSt.init (data : List Byte) : DSt := { inp := data }
 
 /-- "Load bits in bit reseviour": `while (bit_count < n)`; `false` = the `return -1` (end of input and `n < 8`).
-    A request of eight bits or more never fails: zero bits are shifted in instead. -/
+    A request of eight bits or more never fails: zero bits are shifted in instead (and counted in `pad_bits`). -/
 def fill : Nat → Nat → DSt → DSt × Bool
   | 0, _, d => (d, true)
   | f + 1, n, d =>
@@ -186,7 +187,7 @@ def fill : Nat → Nat → DSt → DSt × Bool
       | b :: rest => fill f n { d with pend := d.pend ++ bitsMSB 8 b, inp := rest, endZero := false }
       | [] =>
         if n < 8 then ({ d with endZero := true }, false)
-        else fill f n { d with pend := d.pend ++ zerosB 8, endZero := true }
+        else fill f n { d with pend := d.pend ++ zerosB 8, endZero := true, padBits := d.padBits + 8 }
 
 /-- `dwvw_decode_load_bits (bit_count = n ≥ 0)`: the value of the next `n` bits, or −1 -/
 def getBits (n : Nat) (d : DSt) : DSt × Int :=
@@ -212,12 +213,15 @@ inductive Out
   | stop (d : DSt)                  -- `break` before a sample was produced
   | sample (d : DSt) (x : Int)      -- `ptr [count] = x`
 
-/-- one iteration of the loop of `dwvw_decode_data`; `first` = (`count == 0`).  A −1 from the bit loader is used
-    as a value exactly as the C does (a non-zero flag, `-1 | x = -1`). -/
-def decStep (c : Cfg) (first : Bool) (d : DSt) : Out :=
+/-- one iteration of the loop of `dwvw_decode_data`.  The end test: the bit loader has found the end of the file
+    (`b.end == 0`) AND a zero bit shifted in behind it has been consumed (`bit_count < pad_bits`: padding sits below
+    the real bits of the reservoir) — the real input is exhausted.  (Before the repair of KF-DWVW-TAIL-CALL the second
+    half was `count == 0`: SfModel/DwvwOld.lean.)  A −1 from the bit loader is used as a value exactly as the C does
+    (a non-zero flag, `-1 | x = -1`). -/
+def decStep (c : Cfg) (d : DSt) : Out :=
   let M := c.maxDelta
   let (d1, m) := getDwm c d
-  if m < 0 ∨ (d1.endZero ∧ first) then .stop d1
+  if m < 0 ∨ (d1.endZero ∧ d1.pend.length < d1.padBits) then .stop d1
   else
     let (d2, dwm) : DSt × Int :=
       if m ≠ 0 then (let (e, s) := getBits 1 d1; (e, if s ≠ 0 then -m else m)) else (d1, m)
@@ -237,19 +241,19 @@ def decStep (c : Cfg) (first : Bool) (d : DSt) : Out :=
 
 /-- the loop of `dwvw_decode_data` for `len` cells: the samples *counted* (a sample decoded when the input has
     ended and the reservoir is empty is stored but not counted, yet it stays in `last_sample`) -/
-def decLoop (c : Cfg) : Bool → Nat → DSt → DSt × List Int
-  | _, 0, d => (d, [])
-  | first, n + 1, d =>
-    match decStep c first d with
+def decLoop (c : Cfg) : Nat → DSt → DSt × List Int
+  | 0, d => (d, [])
+  | n + 1, d =>
+    match decStep c d with
     | .stop d1 => (d1, [])
     | .sample d1 x =>
       if d1.endZero ∧ d1.pend.length = 0 then (d1, [])
       else
-        let (d2, xs) := decLoop c false n d1
+        let (d2, xs) := decLoop c n d1
         (d2, x :: xs)
 
 /-- `dwvw_decode_data (ptr, len)` -/
-def decodeData (c : Cfg) (len : Nat) (d : DSt) : DSt × List Int := decLoop c true len d
+def decodeData (c : Cfg) (len : Nat) (d : DSt) : DSt × List Int := decLoop c len d
 
 /-- one read of `n` samples (`dwvw_read_i`) from a freshly opened decoder over `bytes` -/
 def decodeAll (c : Cfg) (bytes : List Byte) (n : Nat) : List Int := (decodeData c n (DSt.init bytes)).2
